@@ -7,6 +7,7 @@ import (
 	"fmt"
 	"math/big"
 	"os"
+	"os/exec"
 	"path/filepath"
 	"regexp"
 	"runtime"
@@ -54,16 +55,24 @@ type Config struct {
 	Level      string
 	OnlyCase   string // regexp filter (debugging / replay)
 	ReplayFile string
+	// Child mode: run the jobs of shard ShardIdx (of ShardN) sequentially and append one JSON line
+	// per finished job to OutFile.
+	Child              bool
+	ShardIdx, ShardN   int
+	OutFile            string
+	InProcess          bool // debugging: no child processes
 }
 
 type caseResult struct {
 	c        Case
-	modulus  string
-	out      *symalg.Outcome
-	stats    map[string]any
-	concrete *symalg.Outcome
-	replays  []replayResult
-	wall     float64
+	CaseID   string           `json:"case"`
+	Job      int              `json:"job"`
+	Modulus  string           `json:"modulus"`
+	Out      *symalg.Outcome  `json:"out"`
+	Stats    map[string]any   `json:"stats"`
+	Concrete *symalg.Outcome  `json:"concrete,omitempty"`
+	Replays  []replayResult   `json:"replays,omitempty"`
+	Wall     float64          `json:"wall"`
 }
 
 type replayResult struct {
@@ -141,22 +150,39 @@ func RunProperty(cfg Config, cases []Case) int {
 		}
 	}
 	results := make([]*caseResult, len(jobs))
-	var wg sync.WaitGroup
-	ch := make(chan int)
-	for w := 0; w < cfg.Workers; w++ {
-		wg.Add(1)
-		go func() {
-			defer wg.Done()
-			for i := range ch {
-				results[i] = runCase(cfg, jobs[i].c, jobs[i].mod)
+	if cfg.Child {
+		f, err := os.OpenFile(cfg.OutFile, os.O_CREATE|os.O_WRONLY|os.O_APPEND, 0o644)
+		if err != nil {
+			fmt.Println("child: cannot open out file:", err)
+			return 2
+		}
+		defer f.Close()
+		for i := range jobs {
+			if i%cfg.ShardN != cfg.ShardIdx {
+				continue
 			}
-		}()
+			r := runCase(cfg, jobs[i].c, jobs[i].mod)
+			r.Job = i
+			b, _ := json.Marshal(r)
+			f.Write(append(b, '\n'))
+		}
+		return 0
+	}
+	if cfg.InProcess {
+		for i := range jobs {
+			results[i] = runCase(cfg, jobs[i].c, jobs[i].mod)
+			results[i].Job = i
+		}
+	} else {
+		runSharded(cfg, len(jobs), results)
 	}
 	for i := range jobs {
-		ch <- i
+		if results[i] == nil {
+			results[i] = &caseResult{CaseID: jobs[i].c.ID, Job: i, Modulus: jobs[i].mod,
+				Out: &symalg.Outcome{Name: jobs[i].c.ID, Obligations: map[string]*symalg.Obligation{}, Inconclusive: "worker process died before finishing this case"}}
+		}
+		results[i].c = jobs[i].c
 	}
-	close(ch)
-	wg.Wait()
 
 	// aggregate
 	known := loadKnown(cfg.VerifDir)
@@ -174,10 +200,10 @@ func RunProperty(cfg Config, cases []Case) int {
 	)
 	exit := 0
 	for _, r := range results {
-		paths += r.out.Paths
-		forks += r.out.Forks
-		genericity += r.out.Genericity
-		for k, v := range r.stats {
+		paths += r.Out.Paths
+		forks += r.Out.Forks
+		genericity += r.Out.Genericity
+		for k, v := range r.Stats {
 			switch x := v.(type) {
 			case int:
 				queries[k] += float64(x)
@@ -185,16 +211,16 @@ func RunProperty(cfg Config, cases []Case) int {
 				queries[k] += x
 			}
 		}
-		if r.out.Inconclusive != "" {
-			inconclusive = append(inconclusive, r.c.ID+": "+r.out.Inconclusive)
+		if r.Out.Inconclusive != "" {
+			inconclusive = append(inconclusive, r.c.ID+": "+r.Out.Inconclusive)
 		}
-		ids := make([]string, 0, len(r.out.Obligations))
-		for id := range r.out.Obligations {
+		ids := make([]string, 0, len(r.Out.Obligations))
+		for id := range r.Out.Obligations {
 			ids = append(ids, id)
 		}
 		sort.Strings(ids)
 		for _, id := range ids {
-			o := r.out.Obligations[id]
+			o := r.Out.Obligations[id]
 			nObl++
 			switch o.Status {
 			case symalg.StValid:
@@ -215,15 +241,15 @@ func RunProperty(cfg Config, cases []Case) int {
 				}
 			}
 		}
-		if r.concrete != nil {
+		if r.Concrete != nil {
 			concreteRuns++
-			for _, o := range r.concrete.Obligations {
+			for _, o := range r.Concrete.Obligations {
 				if o.Status == symalg.StViolated {
 					concreteFail++
 				}
 			}
 		}
-		for _, rp := range r.replays {
+		for _, rp := range r.Replays {
 			if rp.ModelRepro && rp.RealRepro != "no" {
 				violations = append(violations, rp)
 			} else {
@@ -231,10 +257,10 @@ func RunProperty(cfg Config, cases []Case) int {
 			}
 		}
 		if len(samples) < 6 {
-			s := map[string]any{"case": r.c.ID, "modulus": r.modulus, "config": r.c.Desc, "paths": r.out.Paths, "vars": r.out.Vars}
+			s := map[string]any{"case": r.c.ID, "modulus": r.Modulus, "config": r.c.Desc, "paths": r.Out.Paths, "vars": r.Out.Vars}
 			obl := map[string]string{}
 			for _, id := range ids {
-				obl[id] = string(r.out.Obligations[id].Status)
+				obl[id] = string(r.Out.Obligations[id].Status)
 			}
 			s["obligations"] = obl
 			samples = append(samples, s)
@@ -366,31 +392,31 @@ func trunc(s string, n int) string {
 
 func runCase(cfg Config, c Case, modulus string) *caseResult {
 	t0 := time.Now()
-	res := &caseResult{c: c, modulus: modulus}
+	res := &caseResult{c: c, CaseID: c.ID, Modulus: modulus}
 	q := symalg.ModulusByName(modulus)
 	eng, err := symalg.NewEngine(symalg.Options{Q: q, SolverName: cfg.Solver, CrossSolver: cfg.Cross, TimeoutMs: cfg.TimeoutMs, Seed: cfg.Seed})
 	if err != nil {
-		res.out = &symalg.Outcome{Name: c.ID, Obligations: map[string]*symalg.Obligation{}, Inconclusive: "cannot start solver: " + err.Error()}
+		res.Out = &symalg.Outcome{Name: c.ID, Obligations: map[string]*symalg.Obligation{}, Inconclusive: "cannot start solver: " + err.Error()}
 		return res
 	}
 	defer eng.Close()
-	res.out = eng.Explore(c.ID, func(r *symalg.Run) { c.Sym(&SymEnv{R: r}) })
-	res.stats = eng.SolverStats()
+	res.Out = eng.Explore(c.ID, func(r *symalg.Run) { c.Sym(&SymEnv{R: r}) })
+	res.Stats = eng.SolverStats()
 
 	for _, mr := range c.MustReach {
-		if _, ok := res.out.Obligations["reach:"+mr]; !ok && res.out.Inconclusive == "" {
-			res.out.Obligations["reach:"+mr] = &symalg.Obligation{ID: "reach:" + mr, Kind: "reach", Status: symalg.StViolated,
+		if _, ok := res.Out.Obligations["reach:"+mr]; !ok && res.Out.Inconclusive == "" {
+			res.Out.Obligations["reach:"+mr] = &symalg.Obligation{ID: "reach:" + mr, Kind: "reach", Status: symalg.StViolated,
 				Reason: "required reachability marker never reached on any feasible path (vacuous harness or the operation always fails)"}
 		}
 	}
 	// vacuity: every harness must reach at least one obligation
-	if len(res.out.Obligations) == 0 && res.out.Inconclusive == "" {
-		res.out.Inconclusive = "vacuous: no obligation reached"
+	if len(res.Out.Obligations) == 0 && res.Out.Inconclusive == "" {
+		res.Out.Inconclusive = "vacuous: no obligation reached"
 	}
 
 	// replay every violated obligation
 	anyViol := false
-	for id, o := range res.out.Obligations {
+	for id, o := range res.Out.Obligations {
 		if o.Status != symalg.StViolated {
 			continue
 		}
@@ -420,16 +446,16 @@ func runCase(cfg Config, c Case, modulus string) *caseResult {
 		if rp.ModelRepro && rp.RealRepro != "no" {
 			rp.File = writeReplay(cfg, rp)
 		}
-		res.replays = append(res.replays, rp)
+		res.Replays = append(res.Replays, rp)
 	}
 
 	// differential validation: the same harness on a seeded concrete assignment must satisfy every
 	// obligation natively (only meaningful when the symbolic run found no violation)
-	if !anyViol && !c.NoConcreteValidation && res.out.Inconclusive == "" {
+	if !anyViol && !c.NoConcreteValidation && res.Out.Inconclusive == "" {
 		ce, _ := symalg.NewEngine(symalg.Options{Q: q, Seed: cfg.Seed + 7, Concrete: map[string]*big.Int{}})
-		res.concrete = ce.Explore(c.ID, func(r *symalg.Run) { c.Sym(&SymEnv{R: r}) })
+		res.Concrete = ce.Explore(c.ID, func(r *symalg.Run) { c.Sym(&SymEnv{R: r}) })
 	}
-	res.wall = time.Since(t0).Seconds()
+	res.Wall = time.Since(t0).Seconds()
 	return res
 }
 
@@ -507,4 +533,75 @@ func ReplayFile(cfg Config, cases []Case, path string) int {
 	}
 	fmt.Println("case not found:", f.Replay.Case)
 	return 2
+}
+
+
+// runSharded distributes the jobs over single-threaded child processes (GOMAXPROCS=1: the library's
+// own goroutines — sigand runs sub-protocols in an errgroup — then interleave deterministically, a
+// crash is contained, and decoders can find the active run through a process-wide pointer).
+func runSharded(cfg Config, njobs int, results []*caseResult) {
+	n := cfg.Workers
+	if n > njobs {
+		n = njobs
+	}
+	if n < 1 {
+		n = 1
+	}
+	dir, err := os.MkdirTemp(filepath.Join(cfg.VerifDir, "work"), "e2-")
+	if err != nil {
+		_ = os.MkdirAll(filepath.Join(cfg.VerifDir, "work"), 0o755)
+		dir, err = os.MkdirTemp(filepath.Join(cfg.VerifDir, "work"), "e2-")
+		if err != nil {
+			fmt.Println("cannot create work dir:", err)
+			return
+		}
+	}
+	defer os.RemoveAll(dir)
+	var wg sync.WaitGroup
+	for k := 0; k < n; k++ {
+		wg.Add(1)
+		go func(k int) {
+			defer wg.Done()
+			out := filepath.Join(dir, fmt.Sprintf("shard%d.jsonl", k))
+			args := []string{"-property", cfg.Property, "-tier", cfg.Tier, "-solver", cfg.Solver, "-verif", cfg.VerifDir,
+				"-child", "-shard", fmt.Sprintf("%d/%d", k, n), "-out", out, "-timeout-ms", fmt.Sprint(cfg.TimeoutMs)}
+			if cfg.Cross != "" {
+				args = append(args, "-cross", cfg.Cross)
+			}
+			if cfg.OnlyCase != "" {
+				args = append(args, "-only", cfg.OnlyCase)
+			}
+			cmd := exec.Command(os.Args[0], args...)
+			cmd.Env = append(os.Environ(), "GOMAXPROCS=1", fmt.Sprintf("VERIF_SEED=%d", cfg.Seed))
+			var stderr strings.Builder
+			cmd.Stderr = &stderr
+			cmd.Stdout = &stderr
+			runErr := cmd.Run()
+			b, _ := os.ReadFile(out)
+			for _, line := range strings.Split(string(b), "\n") {
+				if strings.TrimSpace(line) == "" {
+					continue
+				}
+				var r caseResult
+				if json.Unmarshal([]byte(line), &r) == nil && r.Job >= 0 && r.Job < njobs {
+					rr := r
+					results[r.Job] = &rr
+				}
+			}
+			if runErr != nil {
+				tail := stderr.String()
+				if len(tail) > 1500 {
+					tail = tail[len(tail)-1500:]
+				}
+				// the first unfinished job of this shard is the one that crashed the child
+				for i := k; i < njobs; i += n {
+					if results[i] == nil {
+						results[i] = &caseResult{Job: i, Out: &symalg.Outcome{Obligations: map[string]*symalg.Obligation{}, Inconclusive: "worker process crashed: " + runErr.Error() + ": " + tail}}
+						break
+					}
+				}
+			}
+		}(k)
+	}
+	wg.Wait()
 }
